@@ -8,7 +8,7 @@ ROOT = os.path.dirname(os.path.dirname(os.path.abspath(__file__)))
 E1 = 'vf/engine/explore.py'
 CHECKS = {}
 NOT_YET = {}
-HOLD = {'C02', 'C04', 'C05', 'C11', 'C03', 'C06', 'C09', 'C14', 'C19'}  # built but not yet passing on the unchanged tree / not yet validated: not claimed
+HOLD = {'C02', 'C04', 'C05', 'C11'}  # built but not yet passing on the unchanged tree / not yet validated: not claimed
 
 
 def check(pid, category, text, note, technique, engine, design_ref):
